@@ -85,7 +85,10 @@ Inductive pcall :=
 | EWithStackIs (e : option err) (target : err)            (* errors.Is(WithStack(e), target) *)
 (* xrand, with a seeded *rand.Rand; the seed only identifies the run *)
 | XSample (n k seed : Z) | XSampleSlice (a : list Z) (k seed : Z)
-| XSampleIterator (items : list Z) (k seed : Z) | XShuffle (a : list Z) (seed : Z).
+| XSampleIterator (items : list Z) (k seed : Z) | XShuffle (a : list Z) (seed : Z)
+(* xrand through the verif hook, with the recorded draws of the run as the oracle.
+   which = 0: rSample(n, k); 1: rSampleSlice(a, k); 2: rSampleIterator(a, k); 3: rShuffle(a) *)
+| XTrace (which n : Z) (a : list Z) (k : Z) (draws : list draw) (swaps : list (Z * Z)).
 
 Inductive pres :=
 | RPanic
@@ -196,6 +199,12 @@ Definition eval_call (c : pcall) : pres :=
   | XSampleSlice a k _ => of_res RList (rsample_slice (fun _ => DStop) [] a k)
   | XSampleIterator items k _ => of_res RList (rsample_iterator (fun _ => DStop) [] items k)
   | XShuffle a _ => of_res RList (shuffle [] a)
+  | XTrace w n a k draws sw =>
+      let o := fun t => nth t draws DStop in
+      of_res RList (if w =? 0 then rsample o sw n k
+                    else if w =? 1 then rsample_slice o sw a k
+                    else if w =? 2 then rsample_iterator o sw a k
+                    else shuffle sw a)
   end.
 
 (* ---- comparison ---- *)
@@ -299,5 +308,6 @@ Example check_M_computes :
      (MReverseSingle [(1, 7); (2, 7); (3, 8)], RMapB [(7, 1); (8, 3)] false);
      (NAbs 8 (-128), RPanic); (NAbs 8 (-127), RInt 127);
      (EWithStack (Some (EWrap 2 (EBase 1))), RErr (Some (EStack (EWrap 2 (EBase 1)))));
-     (XSample 10 3 1, RList [7; 0; 4]); (XShuffle [1; 2; 3] 5, RList [3; 1; 2])] = true.
+     (XSample 10 3 1, RList [7; 0; 4]); (XShuffle [1; 2; 3] 5, RList [3; 1; 2]);
+     (XTrace 0 10 [] 3 [DSkip 1 0; DSkip 0 2; DSkip 2 1] [(2, 0)], RList [5; 8; 4])] = true.
 Proof. vm_compute. reflexivity. Qed.
